@@ -315,6 +315,11 @@ pub fn c01(tier: &str) -> i32 {
     with_bases(&mut plans, "core tick 1", &core1, 3, if t { 5 } else { 3 });
     with_bases(&mut plans, "core + modify", &rp, 3, if t { 4 } else { 2 });
     with_big_bases(&mut plans, "core + modify", &rp, 3, if t { 3 } else { 2 });
+    let mut co = Profile::coincidences("coincidences");
+    co.modify = true;
+    co.modify_prices = true;
+    co.modify_vols = vec![1, 3];
+    plans.push(plan("prices = volumes = ids = trader ids (1,2,3), clock from 1", co, 3, if t { 5 } else { 4 }));
     // the highest valid grid prices for tick sizes that do not divide 2^32-1
     for tick in [2u32, 10] {
         let top = (u32::MAX - 1) / tick;
@@ -473,6 +478,12 @@ pub fn c03(tier: &str) -> i32 {
     mg.modify_vols = vec![70_001];
     mg.toggles = true;
     plans.push(plan("large times, prices and volumes", mg, 3, if t { 5 } else { 4 }));
+    let mut co = Profile::coincidences("ledger-coincidences");
+    co.modify = true;
+    co.modify_prices = true;
+    co.modify_vols = vec![1, 3];
+    co.reset_tv = true;
+    plans.push(plan("prices = volumes = ids = trader ids (1,2,3), clock from 1", co, 3, if t { 5 } else { 4 }));
     // several counter windows of 3e9 each: the volume traded over the life of the book passes
     // 2^32 while every window between two resets stays below it (one price, one volume: deep)
     let mut dw = Profile::magnitude("ledger-counter-windows");
@@ -526,6 +537,15 @@ pub fn c04(tier: &str) -> i32 {
     mg.prices = vec![2_147_483_647, 2_147_483_648];
     mg.limit_vols = vec![1, 3_000_000_000];
     plans.push(plan("large times (set_time by 2^33), prices and volumes", mg, 3, if t { 5 } else { 4 }));
+    let mut co = Profile::coincidences("lifecycle-coincidences");
+    co.create_place = true;
+    co.redundant_place = true;
+    co.modify = true;
+    co.modify_prices = true;
+    co.modify_vols = vec![3];
+    co.prices = vec![1, 2];
+    co.limit_vols = vec![1, 2];
+    plans.push(plan("prices = volumes = ids = trader ids, clock from 1", co, 3, if t { 5 } else { 4 }));
     // a reloaded book is a book: terminal orders must stay terminal after a snapshot round trip too
     // (one price, three orders at most: deep enough for re-queue, reload, cancel, aggressor)
     let mut rl = Profile::core("lifecycle-reload", 1, 10);
